@@ -9,22 +9,22 @@ TECH = 'explicit TLA+ spec checked by TLC + conformance: TLC behaviours replayed
 
 # pid -> (built?, spec modules, level text, level note, technique)
 P = {
-  'C20': (True, 'TokenBucket.tla, TokenBucket_Trace.tla',
+  'C20': (True, 'TokenBucket.tla, TokenBucket_Trace.tla, Boot.tla',
           'TLC exhausts TokenBucket.tla (lazy refill, blocking path, limit change) for small capacities/rates and proves the window, wait and cap invariants there; TLC -simulate behaviours are replayed on the real TokenBucket and random long histories of the real class are judged event by event (every pair of grants) by TokenBucket_Trace.',
           'virtual clock whose sleep() rounds up to the tick; float token counts compared with exact rationals (decisions may differ only at exact equality); writer-level bucket use covered by C03/C04 harness',
           TECH),
 }
 
 P.update({
-  'C02': (True, 'Cache.tla, CacheLin.tla',
+  'C02': (True, 'Cache.tla, CacheLin.tla, Boot.tla',
           'TLC exhausts Cache.tla (store atomic under the lock; drain = unlocked emptiness test, locked choose, locked pop; six strategies; dict insertion order) and proves conservation, last-write-wins, no duplicate timestamp in a batch and exact size in every state; simulated behaviours are replayed on the real _MetricCache with the projection compared after each action; line-level schedule exploration (pre-emption bounded exhaustive, then random) of real store/drain/cache-query workloads is recorded and every execution must have a linearization in CacheLin.tla explaining every batch, query result and lock-free size observation.',
           'source-line granularity (dict/deque operations are atomic under the GIL); cooperative replacement of the cache lock installed on the instance; cache queries issued from the storing thread as in carbon',
           TECH),
-  'C10': (True, 'Cache.tla, CacheLin.tla',
+  'C10': (True, 'Cache.tla, CacheLin.tla, Boot.tla',
           'As C02 with MAX_CACHE_SIZE 1..6 and flow control on/off: TLC proves Bound, RefusalSignalled and the action property RefusalNoEffect on Cache.tla; recorded executions are judged by CacheLin.tla where a refusal must coincide with the overflow signal and leave contents and metric count unchanged, and every lock-free observation of the size must respect floor(hard limit).',
           'hard limit derived like conf.py (MAX or 1.05*MAX); overflow signal observed by a handler on events.cacheOverflow; line granularity',
           TECH),
-  'C17': (True, 'Cache.tla, CacheLin.tla',
+  'C17': (True, 'Cache.tla, CacheLin.tla, Boot.tla',
           'TLC checks per strategy NeverFails (modulo listed finding F9), NoEmptyBatch, FairPass, MaxFirst, LagRespected and, under fairness without state constraint, the liveness property DrainsEverything; behaviours are replayed on the real strategies (generator snapshots / buckets compared); line-level exploration records choose_item() results under the cache lock so CacheLin.tla evaluates pass fairness, max-first and lag at the choice, and any exception out of store()/drain_metric() is an event.',
           'random strategy treated as any cached metric; virtual clock for MIN_TIMESTAMP_LAG; line granularity',
           TECH),
@@ -35,43 +35,43 @@ P.update({
           'TLC exhausts Writer.tla (program-counter machine of writeCachedDataPoints/writeForever with a storing thread, create limiting, lag, and up to 2 failing exists/create/write calls) and proves no double write, no rewrite after an error, write only for existing files, nothing silently discarded and the counters; the real writeForever() runs under the line-level deterministic scheduler against real stores, an in-memory database plugin executing a fault script (every single-fault placement, then random multi-fault scripts) with the real counters and the twisted error log, and WriterLin.tla judges every recorded trace clause by clause; executions at lock/backend-call granularity are in addition validated against Writer.tla itself (Writer_Trace.tla: logged events matched to actions, silent writer steps inserted by TLC, corrupted traces rejected).',
           'in-memory TimeSeriesDatabase plugin stands for Whisper/Ceres (not installed); log.err() counts as reported; linearization-point events logged from the cooperative cache lock; line granularity',
           TECH),
-  'C04': (True, 'Writer.tla, WriterLin.tla',
+  'C04': (True, 'Writer.tla, WriterLin.tla, Boot.tla',
           'TLC proves FlushOnExit on Writer.tla with the stop (before-trigger, then running:=False) enabled in every state; on the code a third thread delivers the stop through the real shutdownModifyUpdateSpeed() and every placement reachable with <= k pre-emptions at line granularity (plus random placements) is executed for all strategies, MIN_TIMESTAMP_LAG and rate limits with/without MAX_UPDATES_PER_SECOND_ON_SHUTDOWN; WriterLin.tla flags datapoints accepted before the stop that are still cached at thread exit.',
           'reactor double whose running flag the stop thread clears (Twisted clears it in crash() during shutdown and then joins the pool); virtual time; a failing write() during the flush; other backend faults belong to C03',
           TECH),
 })
 
 P.update({
-  'C07': (True, 'Relay.tla, Relay_Trace.tla',
+  'C07': (True, 'Relay.tla, Relay_Trace.tla, Boot.tla',
           'TLC exhausts Relay.tla - one action per reactor callback of carbon.client (arrival, self-metric, connection made/lost/failed, transport pause/resume, send timer, retry timer, stop) with the synchronous chains inside a callback - and proves FifoOnce, NormalOrder, DropsCounted, Bounded, BatchSize, StopAfterFlush and NoLoss for 1-2 destinations, flow control and dynamic router on/off; TLC-simulated event sequences and seeded random histories are executed on the real CarbonClientManager/factories/protocols (fake connector, per-factory clocks, StringTransports, real router, real pipeline wiring); every event logs the full projection including the independently decoded bytes of every connection and Relay_Trace.tla applies the callback to the previously observed state and names what differs.',
           'bytes handed to transport.write() are the observation; no datapoints injected after the orderly stop began; pickle and line client protocols (protobuf not importable)',
           TECH),
-  'C09': (True, 'FlowCache.tla, FlowCache_Trace.tla, Relay.tla, Relay_Trace.tla, Listen.tla',
+  'C09': (True, 'FlowCache.tla, FlowCache_Trace.tla, Relay.tla, Relay_Trace.tla, Listen.tla, Boot.tla',
           'Cache side: TLC checks NoStuck on FlowCache.tla (cacheFull chain under the lock on the reactor thread, unlocked space check and cacheSpaceAvailable chain on the writer thread, handler lists iterated by index); the real cache + events + service.py wiring + real receivers run as two threads under pre-emption-bounded, random and landmark-directed line-level schedules to quiescence and FlowCache_Trace.tla flags anyone left paused below the watermark (listed finding F8 by signature). Relay side: TLC checks NoStuck on Relay.tla and the C07 event histories, settled to quiescence, are judged by Relay_Trace.tla.',
           'quiescence excludes the 60 s self-metrics timer; MAX_CACHE_SIZE=20 pre-filled so that 1.05*MAX leaves room above MAX; landmark lines are located in the source text',
           TECH),
 })
 
 P.update({
-  'C05': (True, 'Ring.tla, Ring_Trace.tla',
+  'C05': (True, 'Ring.tla, Ring_Trace.tla, Boot.tla',
           'TLC checks WellFormed and FullList on Ring.tla over EVERY hash table of a small ring (collisions included) and every membership reachable by a few add/remove steps, for RF 1..3 and both DIVERSE_REPLICAS values; the real ConsistentHashRing / ConsistentHashingRouter / FastHashingRouter are driven with controlled tables (compute_ring_position rebound on the instance) and with real md5 / FNV-1a hashes over ALL 65537 ring positions (compressed to arcs after checking constancy); Ring_Trace.tla rebuilds the ring from independently computed reference positions, recomputes every preference list and evaluates the property clauses on the observed destination lists.',
           'mmh3_ch excluded (mmh3 not installed); hashlib.md5 trusted; reference positions are a value oracle (TLC cannot evaluate md5)',
           TECH),
-  'C06': (True, 'Ring.tla, Ring_Trace.tla',
+  'C06': (True, 'Ring.tla, Ring_Trace.tla, Boot.tla',
           'TLC proves the action property Stable and HistoryFreeModuloCollisions over every hash table of a small ring; recorded scenarios (controlled and real hashes, histories of up to 6 add/remove operations) are judged by Ring_Trace.tla: observed ring entries must equal add/bump/insort/remove applied to the reference hash positions after every step (compatibility with the published carbon_ch / fnv1a_ch algorithm), and the final routing must equal that of a freshly built ring (history independence; listed finding F3 where positions collide).',
           'as C05; the fresh relay is taken to add the live destinations in their configured order',
           TECH),
 })
 
 P.update({
-  'C08': (True, 'Aggregator.tla, Aggregator_Trace.tla, Pipeline.tla',
+  'C08': (True, 'Aggregator.tla, Aggregator_Trace.tla, Pipeline.tla, Boot.tla',
           'TLC exhausts Aggregator.tla (MetricBuffer / IntervalBuffer / BufferManager and the compute_value LoopingCall on a virtual clock; a value is the id of its datapoint) and proves that every emission covers the values received since the last emission, all values while the interval never expired, re-emission only on new data, the MAX+2 cap and the release of idle series; TLC-simulated behaviours and random streams x tick interleavings run on the real AggregationProcessor / RuleManager / BufferManager (rules file in scratch, buffers.time virtual, every LoopingCall on a task.Clock) and Aggregator_Trace.tla re-synchronises on the observed buffers and judges the observed emissions (values 4^id under sum make the aggregated ids decodable) and the forwarding; generated rules x names are judged by the pattern-language operators of the same module; Pipeline.tla specifies run_pipeline over the processors carbon.service.setupPipeline installs (closed-form delivery / naming / feeding / error accounting checked by TLC against the recursive definition) and judges recorded cases of the real pipeline (real rule files, one processor optionally made to raise, generated datapoints).',
           'numeric aggregation methods are compared with exact references outside TLC (value oracle); pattern oracle restricted to whole-segment fields, <<field>>, *, pre*post and plain literals',
           TECH),
 })
 
 P.update({
-  'C01': (True, 'Wire.tla, Wire_Trace.tla, Listen.tla',
+  'C01': (True, 'Wire.tla, Wire_Trace.tla, Listen.tla, Boot.tla',
           'TLC exhausts Wire.tla (frames of good / bad / over-long kind, the receivers buffer-and-consume loop) over every stream of up to 3 frames and every segmentation and proves ExactlyOnceInOrder, CloseOnlyOversize and AppendOnly; concrete streams of well-formed datapoints (non-ASCII names, fractional and > 2^31 timestamps, +-inf, -0.0, subnormals, random 64-bit patterns, integers, pickle protocols 0-5, any batching) are fed to the real MetricLineReceiver / MetricPickleReceiver under every single cut position, all-1-byte segments and random multi-cuts and to MetricDatagramReceiver per datagram; a recorder on events.metricReceived is the observation and Wire_Trace.tla judges every segment.',
           'bit-exact float comparison is a value oracle; protobuf listener not importable; Twisted framing code is in the loop (observed, not trusted)',
           TECH),
@@ -82,21 +82,21 @@ P.update({
 })
 
 P.update({
-  'C12': (True, 'Admission.tla',
+  'C12': (True, 'Admission.tla, Boot.tla',
           'The admission rules are a decision table in Admission.tla (blacklist hit, non-empty whitelist miss, NaN, timestamp -1 -> now, rounding down to MIN_TIMESTAMP_RESOLUTION, list-file semantics with comment / blank / invalid lines, search not match); thousands of cases - list files written to disk and loaded by the real WhiteList/BlackList objects, names that hit and narrowly miss, values incl. NaN/inf, timestamps incl. -1, fractional and negative, resolutions 0/1/10/60 - are sent through the real line, UDP and pickle listeners, and TLC evaluates the table against the recorded outcome (admitted?, timestamp, name/value unchanged, the two counters) for every case.',
           'regular-expression matching is restricted to a literal grammar that the specification can decide (value oracle); protocols.time is a fixed virtual clock',
           'explicit TLA+ decision table evaluated by TLC on recorded executions of the real listeners (oracle evaluation)'),
 })
 
 P.update({
-  'C15': (True, 'Hop.tla, Wire_Trace.tla',
+  'C15': (True, 'Hop.tla, Wire_Trace.tla, Boot.tla',
           'TLC checks Hop.tla - batches of at most MaxPerMsg ids leave the queue as frames (one pickle frame per batch / one line per datapoint) and the listener loop of Wire.tla consumes them under every segmentation - for InOrderExactlyOnce, Complete, BatchSize and Conserved over all batch sizes; a real CarbonPickleClientFactory / CarbonLineClientFactory transmits queues of extreme datapoints with MAX_DATAPOINTS_PER_MESSAGE 1..16, an independent decoder recovers the batch structure of the bytes, the bytes are fed under segmentations to the real listener, and Wire_Trace.tla judges order, exactly-once and batching with the per-datapoint value relation supplied by the harness.',
           'value relation (pickle bit-identical; line: |dv| <= 5e-11 or 1 ulp, floor of the timestamp) is evaluated in exact Fraction arithmetic outside TLC; protobuf not importable',
           TECH),
 })
 
 P.update({
-  'C14': (True, 'Path.tla',
+  'C14': (True, 'Path.tla, Boot.tla',
           'Path.tla transcribes TaggedSeries.encode/decode, WhisperDatabase._getFilesystemPath (with os.path.join and normpath semantics) and CeresDatabase.encode over a symbol alphabet; TLC enumerates EVERY metric name up to the length bound (one state per name) and proves ConfinedAll, CeresOK and Injective; every such name plus random long / arbitrary-unicode names is passed to the real WhisperDatabase.getFilesystemPath and CeresDatabase.encode (both TAG_HASH_FILENAMES values), a file is created through WhisperDatabase.create in a scratch data directory, and TLC checks per case that the observed path, symbolised by character class, equals the specified one, is confined, and that the created file lies under the data directory.',
           'whisper / ceres are stubs (not installed): only carbon\'s own path code and plugin glue run; the sha256 prefix is a value oracle; Ceres on-disk layout cannot run',
           'explicit TLA+ transcription of the path function, exhaustive TLC enumeration of names, oracle evaluation of recorded executions'),
@@ -124,7 +124,7 @@ P.update({
 })
 
 P.update({
-  'C13': (True, 'Unpickle.tla',
+  'C13': (True, 'Unpickle.tla, Boot.tla',
           'Unpickle.tla is the pickle machine restricted to global references (GLOBAL, STACK_GLOBAL, INST, OBJ, NEWOBJ, NEWOBJ_EX, REDUCE, BUILD, EXT, PERSID, memo) with SafeUnpickler.find_class as the only gate; TLC proves Safe, NothingOnPy3 and PlainResult over every opcode program up to the bound under Python 3 and Python 2 allow-list semantics; TLC-simulated abstract programs are assembled into bytes for protocols 0-5 and several concrete encodings, templates of every route are nested at depth 0-3 inside a well-formed datapoint list, the lookup routes are swept over the (module, attribute) pairs of all loaded modules, all delivered through the real MetricPickleReceiver.dataReceived and CacheManagementHandler.dataReceived; a spy around the unpickler chosen in connectionMade, canaries and an audit hook are the observation and Unpickle.tla (trace mode) judges every record.',
           'references on calling routes are canaries of a harness module only; the sweep over loaded modules uses lookup-only routes (stride 23 in quick, every pair in thorough)',
           TECH),
